@@ -330,7 +330,7 @@ impl Method for UpperReversalSignal {
 			forall|j: int| 0 <= j < w ==> (#[trigger] vw[j])@ <= max_value@,
 			forall|j: int| (max_index as int) - f < j < w ==> (#[trigger] vw[j])@ < max_value@,
 		decreases it0__.remaining().len()
-//@hint before self.max_value = max_value;
+//@hint before#1 self.max_value =
 	proof { lemma_rescan(vw, k, max_index as int, max_value); }
 //@hint before let s = if
 	proof {
@@ -445,7 +445,7 @@ impl Method for LowerReversalSignal {
 			forall|j: int| 0 <= j < w ==> (#[trigger] vw[j])@ >= min_value@,
 			forall|j: int| (min_index as int) - f < j < w ==> (#[trigger] vw[j])@ > min_value@,
 		decreases it0__.remaining().len()
-//@hint before self.min_value = min_value;
+//@hint before#1 self.min_value =
 	proof { lemma_rescan_min(vw, k, min_index as int, min_value); }
 //@hint before let s = if
 	proof {
